@@ -1384,3 +1384,12 @@ func ChanID(ch any) int {
 	}
 	return 0
 }
+
+// ZeroKV, ZeroIE and ZeroStr return zero values of the iteration variables of a range statement over a map, a slice
+// or a string.  The instrumenter uses them (transformation T9) to declare the loop variables once, outside the loop,
+// which is what the repository's language version (go < 1.22) means by `for k, v := range x`.
+func ZeroKV[M ~map[K]V, K comparable, V any](m M) (k K, v V) { return }
+
+func ZeroIE[S ~[]E, E any](s S) (i int, e E) { return }
+
+func ZeroStr[S ~string](s S) (i int, r rune) { return }
